@@ -156,22 +156,32 @@ Definition sep_okb (a : ts_ast) (rest : str) : bool :=
   | TsZoned _ _ _ _ _ _ _ _ => true
   end.
 
-(* ------------------------------------------------------------------ normal representation *)
-(* the (second, nanosecond) pair is sign-consistent: the invariant under which the
-   library's comparison is the comparison of instants *)
+(* ------------------------------------------------------------------ canonical representation *)
+(* the time zone a time stamp carries: the written offset, else the configured zone *)
+Definition ast_zone (cfg : tscfg) (a : ts_ast) : jzone :=
+  match a with
+  | TsZoned _ _ _ _ _ _ _ z => ZFixed (zspec_off z)
+  | _ => cfg_zone cfg
+  end.
+
+(* THE canonical pair of an instant: quotient and remainder of the truncated division by 10^9 *)
+Definition ts_canon (i : Z) : jts := mkJts (Z.quot i NS) (Z.rem i NS).
+
+(* a (second, nanosecond) pair is canonical when it is sign-consistent: the invariant under
+   which the library's comparison of pairs is the comparison of instants (and under which the
+   pair is determined by the instant: ts_canonical_unique) *)
 Definition ts_normalb (t : jts) : bool :=
   (Z.abs (j_ns t) <? NS) && ((j_sec t <=? 0) || (0 <=? j_ns t)) && ((0 <=? j_sec t) || (j_ns t <=? 0)).
 Definition ts_normal (t : jts) : Prop := ts_normalb t = true.
 
-(* class of finding F17 ("epoch-mixed-sign"): a fractional second, and the civil date in the
+(* where the library layer alone (civil time -> pair) yields a NON-canonical pair, the class of
+   the former finding F17 ("epoch-mixed-sign"): a fractional second, and the civil date in the
    written offset on the other side of 1970-01-01 than the instant *)
 Definition epoch_mixedb (c : civil) (off : Z) : bool :=
   negb (cv_ns c =? 0) &&
   (let day := spec_days (cv_y c) (cv_m c) (cv_d c) in
    let sec := day * 86400 + cv_h c * 3600 + cv_mi c * 60 + cv_s c - off in
    if day <? 0 then 0 <=? sec else sec <? 0).
-Definition epoch_safe (cfg : tscfg) (a : ts_ast) : Prop :=
-  epoch_mixedb (ast_civil cfg a) (ast_conv_off cfg a) = false.
 
 (* ------------------------------------------------------------------ oracles *)
 (* observed result of the implementation for one time stamp: None = rejected,
